@@ -2,6 +2,9 @@
 //  * every C-string argument in a heap block of exactly strlen+1 bytes (ASan sees any read past it),
 //  * a recording string allocator (exact-size malloc blocks; checks that each buffer comes back once, with its size),
 //  * an independent reference (std::string / libc) evaluated next to it.
+// Everything a scenario constructs -- arguments, results, temporaries, the collection of split, the three objects of an
+// operation sequence -- is a local of its branch in one(), i.e. it is DESTROYED before rec.paired() closes the recorded window:
+// the buffers still owned by result objects when the scenario ends are part of the pairing observation.
 // Observation: <value tokens> <reference agrees 0|1> <allocator pairing 0|1>
 #include <string>
 #include <vector>
@@ -94,8 +97,8 @@ static void one(Toks& t, Out& o)
         std::string ea = A, eb = B; if (ea.size() < eb.size()) ea = std::string(eb.size() - ea.size(), (char)ch) + ea; else eb = std::string(ea.size() - eb.size(), (char)ch) + eb; ref = ea == v[0] && eb == v[1]; }
     else if (op == ":repls") { t.bytes(A); t.bytes(B); t.bytes(C); Cs a(A), b(B), c(C); SimpleString s(a.p); s.replace(b.p, c.p); val = hs(s); ref = refReplace(A, B, C) == s.asCharString(); }
     else if (op == ":printable") { t.bytes(A); Cs a(A); SimpleString s(a.p); SimpleString r = s.printable(); val = hs(r); ref = refPrintable(A) == r.asCharString(); }
-    else if (op == ":split") { t.bytes(A); t.bytes(B); Cs a(A), b(B); SimpleString s(a.p), d(b.p); std::vector<std::string> v; { SimpleStringCollection col; s.split(d, col); for (size_t i = 0; i < col.size(); i++) v.push_back(col[i].asCharString()); } val = listTok(v);
-        if (B.size() == 1) { std::vector<std::string> e; size_t pos = 0; for (;;) { size_t f = A.find(B[0], pos); if (f == std::string::npos) { if (pos < A.size()) e.push_back(A.substr(pos)); break; } e.push_back(A.substr(pos, f + 1 - pos)); pos = f + 1; } ref = e == v; } }
+    else if (op == ":split") { t.bytes(A); unsigned dc = (unsigned)t.u(); char ds[2] = { (char)dc, 0 }; Cs a(A); SimpleString s(a.p), d(ds); std::vector<std::string> v; { SimpleStringCollection col; s.split(d, col); for (size_t i = 0; i < col.size(); i++) v.push_back(col[i].asCharString()); } val = listTok(v);
+        { std::vector<std::string> e; size_t pos = 0; for (;;) { size_t f = A.find((char)dc, pos); if (f == std::string::npos) { if (pos < A.size()) e.push_back(A.substr(pos)); break; } e.push_back(A.substr(pos, f + 1 - pos)); pos = f + 1; } if (A.empty()) e.push_back(std::string()); ref = e == v; } }
     else if (op == ":fromtill") { t.bytes(A); unsigned c1 = (unsigned)t.u(), c2 = (unsigned)t.u(); Cs a(A); SimpleString s(a.p); SimpleString r = s.subStringFromTill((char)c1, (char)c2); val = hs(r); std::string e; size_t b = c1 ? A.find((char)c1) : std::string::npos; if (b != std::string::npos) { size_t en = c2 ? A.find((char)c2, b) : std::string::npos; e = en == std::string::npos ? A.substr(b) : A.substr(b, en - b); } ref = e == r.asCharString(); }
     else if (op == ":atoi") { t.bytes(A); Cs a(A); int r = SimpleString::AtoI(a.p); val = hz(r); ref = r == (int)strtol(a.p, nullptr, 10); }
     else if (op == ":atou") { t.bytes(A); Cs a(A); unsigned r = SimpleString::AtoU(a.p); val = hx(r); const char* q = a.p; while (*q == ' ' || (*q >= 9 && *q <= 13)) q++; unsigned e = (*q == '+' || *q == '-') ? 0u : (unsigned)strtoull(q, nullptr, 10); ref = r == e; }
@@ -120,6 +123,9 @@ static void one(Toks& t, Out& o)
                 else if (w == ":rs") { int i = t.n(); t.bytes(A); t.bytes(B); Cs a(A), b(B); obj[i].replace(a.p, b.p); refv[i] = refReplace(refv[i], A, B); }
                 else if (w == ":prt") { int i = t.n(), j = t.n(); obj[i] = obj[j].printable(); refv[i] = refPrintable(refv[j]); }
                 else if (w == ":pad") { int i = t.n(), j = t.n(); unsigned ch = (unsigned)t.u(); if (i != j) { SimpleString::padStringsToSameLength(obj[i], obj[j], (char)ch); std::string& x = refv[i]; std::string& y = refv[j]; if (x.size() < y.size()) x = std::string(y.size() - x.size(), (char)ch) + x; else y = std::string(x.size() - y.size(), (char)ch) + y; } }
+                else if (w == ":fmt") { int i = t.n(); t.bytes(A); t.bytes(B); Cs a(A), b(B); obj[i] = StringFromFormat("%s%s", a.p, b.p); refv[i] = A + B; }
+                else if (w == ":rep") { int i = t.n(); t.bytes(A); size_t m = t.u(); Cs a(A); obj[i] = SimpleString(a.p, m); std::string e; for (size_t q = 0; q < m; q++) e += A; refv[i] = e; }
+                else if (w == ":plus") { int i = t.n(), j = t.n(), l = t.n(); obj[i] = obj[j] + obj[l]; refv[i] = refv[j] + refv[l]; }
                 else { fprintf(stderr, "bad seq op %s\n", w.c_str()); exit(3); }
             }
             std::vector<std::string> v; for (int i = 0; i < 3; i++) { v.push_back(obj[i].asCharString()); ref = ref && v[i] == refv[i]; }
